@@ -80,7 +80,24 @@ func genBadDef(r *rand.Rand) badDef {
 		}
 		return badDef{"uncompilable-regex", fmt.Sprintf("GET(%q, h)", path), func() { router.GET(path, h) }}
 	case 6: // more handlers than the limit (63) on one route
-		switch r.IntN(6) {
+		switch r.IntN(9) {
+		case 6: // Any: the variadic middleware of the all-methods registrar
+			n := 63 + r.IntN(8)
+			if chance(r, 1, 2) {
+				return badDef{"too-many-handlers", fmt.Sprintf("Group(/g, {Any(%q, h, %d middleware...)})", validPath, n), func() { router.Group("/g", func() { router.Any(validPath, h, nHandlers(n)...) }) }}
+			}
+			return badDef{"too-many-handlers", fmt.Sprintf("Any(%q, h, %d middleware...)", validPath, n), func() { router.Any(validPath, h, nHandlers(n)...) }}
+		case 7, 8: // a top-level group (or controller) with a root prefix: Use inside it is group middleware
+			n := 63 + r.IntN(8)
+			root := pick(r, []string{"/", "", " ", "//"})
+			if chance(r, 1, 3) {
+				return badDef{"too-many-handlers", fmt.Sprintf("Controller(%q, {Use(%d); GET(%q, h)})", root, n, validPath), func() {
+					router.Controller(root, c13Ctl(func(rt *rux.Router) { rt.Use(nHandlers(n)...); rt.GET(validPath, h) }))
+				}}
+			}
+			return badDef{"too-many-handlers", fmt.Sprintf("Group(%q, {Use(%d); GET(%q, h)})", root, n, validPath), func() {
+				router.Group(root, func() { router.Use(nHandlers(n)...); router.GET(validPath, h) })
+			}}
 		case 0:
 			n := 63 + r.IntN(8)
 			if chance(r, 1, 3) {
@@ -128,6 +145,11 @@ func genBadDef(r *rand.Rand) badDef {
 		}}
 	}
 }
+
+// c13Ctl is a controller whose AddRoutes is the given function
+type c13Ctl func(*rux.Router)
+
+func (f c13Ctl) AddRoutes(r *rux.Router) { f(r) }
 
 var fuzzAlphabet = []string{"/", "{", "}", "[", "]", "(", ")", ":", ".", "\\", "d", "+", "*", "?", "|", "a", "1", " ", "{id}", "{n:\\d+}", "[/", "]", "/a", "{x:", "(?:", ")", "(a|b)", "(x)", "/(new|old)", "-(a|b)"}
 
@@ -178,7 +200,7 @@ func hostilePaths(r *rand.Rand, pattern string) []string {
 }
 
 func runC13(e *Env) {
-	e.Rule = "(a) rejection by construction: definitions invalid for exactly one stated reason (nil handler via GET/Add/AddRoute/Any-in-group; method list empty after trimming; unknown method tokens incl. prefixes and comma lists; capturing group in a variable regex in first/second/optional position; optional part not at the end; uncompilable regex; >= 63 handlers via variadic middleware, Route.Use, group middleware, Router.Use inside a group and combinations incl. a pre-built route added inside a group; WithOptions after a route exists) must panic at registration, and their valid neighbours (62 handlers, case variants of methods, non-capturing groups) must be accepted. (b) totality after acceptance: fuzzed pattern strings (random over a metacharacter alphabet, and mutations of valid patterns), fuzzed method lists, handler counts 0..70, all option combinations incl. caching on a router without routes and InterceptAll; whatever registration accepts is probed with Match, QuickMatch and ServeHTTP over hostile methods and paths (empty, blank, non-UTF-8, 4 KiB, derived from the pattern): no panic out of the router. Non-trivial: every bad definition; every accepted fuzzed definition containing a metacharacter; distinct by definition. Handler counts up to 512; a quarter of the fuzzed definitions are registered for all nine methods; request methods outside the nine. A sixth of the totality cases register their route through an application-defined option function at a random position of the list given to New (the options behind it meet a router that already has a route). A quarter of the capturing-group / misplaced-optional / uncompilable-regex definitions carry the offending text in a Group prefix above a plain-text route. A quarter of the accepted routes are handed to AddRoute a second time (same or another router) before the lookups."
+	e.Rule = "(a) rejection by construction: definitions invalid for exactly one stated reason (nil handler via GET/Add/AddRoute/Any-in-group; method list empty after trimming; unknown method tokens incl. prefixes and comma lists; capturing group in a variable regex in first/second/optional position; optional part not at the end; uncompilable regex; >= 63 handlers via variadic middleware (verb helpers and Any), Route.Use, Router.Use inside a top-level Group/Controller with a root prefix, group middleware, Router.Use inside a group and combinations incl. a pre-built route added inside a group; WithOptions after a route exists) must panic at registration, and their valid neighbours (62 handlers, case variants of methods, non-capturing groups) must be accepted. (b) totality after acceptance: fuzzed pattern strings (random over a metacharacter alphabet, and mutations of valid patterns), fuzzed method lists, handler counts 0..70, all option combinations incl. caching on a router without routes and InterceptAll; whatever registration accepts is probed with Match, QuickMatch and ServeHTTP over hostile methods and paths (empty, blank, non-UTF-8, 4 KiB, derived from the pattern): no panic out of the router. Non-trivial: every bad definition; every accepted fuzzed definition containing a metacharacter; distinct by definition. Handler counts up to 512; a quarter of the fuzzed definitions are registered for all nine methods; request methods outside the nine. A sixth of the totality cases register their route through an application-defined option function at a random position of the list given to New (the options behind it meet a router that already has a route). A quarter of the capturing-group / misplaced-optional / uncompilable-regex definitions carry the offending text in a Group prefix above a plain-text route. A quarter of the accepted routes are handed to AddRoute a second time (same or another router) before the lookups."
 	e.Assumptions = []string{
 		"the handler limit is the per-route limit the registration code documents (group + route middleware); global middleware added with Router.Use at top level is not counted by it",
 		"a panic with any message counts as rejection",
